@@ -98,6 +98,13 @@ theorem indexOK_replayR : ∀ (rlog : List Op), AllGuardsR rlog → IndexOK (rep
 theorem indexOK_of_vm (s : VM) (hok : s.ixs.ok = true) : IndexOK s.ixs.ix := by
   rw [s.ixs.h]; exact indexOK_replayR _ (s.ixs.hok hok)
 
+theorem noPos_replayR : ∀ (rlog : List Op), AllGuardsR rlog → NoPos (replayR rlog)
+  | [], _ => noPos_init
+  | op :: rest, h => noPos_step (noPos_replayR rest h.1) op h.2
+
+theorem noPos_of_vm (s : VM) (hok : s.ixs.ok = true) : NoPos s.ixs.ix := by
+  rw [s.ixs.h]; exact noPos_replayR _ (s.ixs.hok hok)
+
 theorem mapsConsistent_replayR : ∀ (rlog : List Op), MapsConsistent (replayR rlog)
   | [] => indexOK_init.maps
   | op :: rest => mapsConsistent_step (mapsConsistent_replayR rest) op
